@@ -21,7 +21,7 @@ func actRestart() Action { return Action{Name: "restart", Kind: "restart", Tmpl:
 func restartChain(rig *Rig, pre *State) (*State, StepResult) {
 	var res StepResult
 	same := func() *State {
-		return &State{Height: pre.Height, Time: pre.Time, Used: pre.Used, Msgs: pre.Msgs, Mon: pre.Mon, Stores: pre.Stores}
+		return &State{Height: pre.Height, Time: pre.Time, Ms: pre.Ms, Used: pre.Used, Msgs: pre.Msgs, Mon: pre.Mon, Stores: pre.Stores}
 	}
 	w := rig.Restore(pre)
 	var gs *st.GenesisState
@@ -42,7 +42,7 @@ func restartChain(rig *Rig, pre *State) (*State, StepResult) {
 	prepared := func() *State {
 		pw := rig.Restore(pre)
 		service.PrepForZeroHeightGenesis(pw.ctx, rig.sk)
-		return &State{Height: pre.Height, Time: pre.Time, Used: pre.Used, Msgs: pre.Msgs, Stores: pw.Flush()}
+		return &State{Height: pre.Height, Time: pre.Time, Ms: pre.Ms, Used: pre.Used, Msgs: pre.Msgs, Stores: pw.Flush()}
 	}
 	if err := st.ValidateGenesis(*gs); err != nil {
 		res.Prepared = prepared()
@@ -62,7 +62,7 @@ func restartChain(rig *Rig, pre *State) (*State, StepResult) {
 		return same(), res
 	}
 	stores := w.Flush()
-	next := &State{Height: pre.Height, Time: pre.Time, Used: pre.Used | restartBit, Msgs: 0, Stores: stores}
+	next := &State{Height: pre.Height, Time: pre.Time, Ms: pre.Ms, Used: pre.Used | restartBit, Msgs: 0, Stores: stores}
 	next.Stores[stService] = nil // the new chain's service store starts empty
 	nw := rig.Restore(next)
 	func() {
